@@ -132,6 +132,9 @@ func From(input any) (Any, error) {
 		if err != nil {
 			return nil, err
 		}
+		if exp := value.Exponent(); exp > maxDecimalExponent || exp < -maxDecimalExponent {
+			return nil, fmt.Errorf("%w: decimal exponent %d out of range", ErrCantBeCast, exp)
+		}
 		unit := v.GetCode().GetValue()
 		return Quantity{Decimal(value), unit}, nil
 	case Any:
